@@ -9,11 +9,13 @@ func init() {
 		),
 		Runs: []HarnessRun{
 			{Pkg: "wire", Entry: "VerifH13a", What: "Read: CopyData -> payload, Flush/Sync skipped, CopyDone -> EOF, CopyFail/other -> non-nil non-EOF, reader itself writes nothing",
-				Quick: map[string]int{"K": 2, "N": 2}, Thorough: map[string]int{"K": 3, "N": 3},
+				Quick: map[string]int{"K": 2, "N": 4}, Thorough: map[string]int{"K": 3, "N": 5},
 				Witnesses: []string{"copy-done", "copy-fail", "foreign-message", "flush-or-sync-skipped", "second-copydata", "truncated-copydata"}},
 			{Pkg: "wire", Entry: "VerifH13b", What: "cycle: CopyInResponse per column/format, payloads in order, exactly one E and one Z on abort, C Z on success, stray COPY messages ignored",
 				Quick: map[string]int{"K": 2, "N": 1}, Thorough: map[string]int{"K": 3, "N": 2},
 				Witnesses: []string{"copy-completed", "copy-aborted", "handler-stopped", "stray-copy-message"}},
+			{Pkg: "wire", Entry: "VerifH13d", What: "binary COPY read through the library's row reader: whether the COPY ended well is decided by CopyDone / CopyFail / a non-COPY message, also when the data already carried its end-of-data trailer",
+				Quick: map[string]int{"TUPLES": 2}, Witnesses: []string{"completed", "copyfail-after-trailer"}},
 		},
 	})
 	props = append(props, PropSpec{
